@@ -217,6 +217,45 @@ def tree_eval(prog):
                     [list(g(e, "path")) for e in order], g(t3, "total_errors"), sorted(iter(t3)))
             if out["order"] is not None:
                 break
+        # one element value may occur several times in a path (a member "a" of a member "a", element 0 of element 0): each error is
+        # filed at the end of its *own* path, whichever of the shorter paths arrived before it
+        h1 = VE("h1", validator="required", path=["a"], instance={"a": "s"})
+        h2 = VE("h2", validator="type", path=["a", "a"], instance="s")
+        h3 = VE("h3", validator="maxItems", path=[0], instance=[1, 2])
+        h4 = VE("h4", validator="type", path=[0, 0], instance=1)
+        h5 = VE("h5", validator="type", path=["n", "m", "n"], instance=5)
+        h6 = VE("h6", validator="minimum", path=["n"], instance={"m": {"n": 5}})
+        h7 = VE("h7", validator="enum", path=["n", "m"], instance={"n": 5})
+        for order, want in (([h1, h2], {("a",): {"required": h1}, ("a", "a"): {"type": h2}}), ([h2, h1], {("a",): {"required": h1}, ("a", "a"): {"type": h2}}),
+                            ([h3, h4], {(0,): {"maxItems": h3}, (0, 0): {"type": h4}}), ([h6, h7, h5], {("n",): {"minimum": h6}, ("n", "m"): {"enum": h7}, ("n", "m", "n"): {"type": h5}}),
+                            ([h6, h5, h7], {("n",): {"minimum": h6}, ("n", "m"): {"enum": h7}, ("n", "m", "n"): {"type": h5}})):
+            t4 = T(list(order))
+            for pth, werrs in want.items():
+                node = t4
+                try:
+                    for el in pth:
+                        node = node[el]
+                    got_errs = dict(g(node, "errors"))
+                except PyRaise as pr:
+                    got_errs = "<%s>" % pr.name
+                if got_errs != werrs and out["order"] is None:
+                    out["order"] = "errors arriving as %s (an element value occurring twice in a path): the node at %r holds %r, expected %r" % (
+                        [list(g(e, "path")) for e in order], list(pth), got_errs, werrs)
+            if out["order"] is None and g(t4, "total_errors") != len(order):
+                out["order"] = "errors arriving as %s: %d errors in the tree, expected %d" % ([list(g(e, "path")) for e in order], g(t4, "total_errors"), len(order))
+        # errors below the root only (a Draft 4+ `required` error: its instance is the object that lacks the member): the nodes above
+        # them know nothing about their own instances, and looking up an error-free sibling must not consult somebody else's
+        whole = {"a": {}, "b": 1, "c": [{}, {"id": 1}]}
+        q1 = VE("'x' is a required property", validator="required", validator_value=["x"], path=["a"], instance=whole["a"])
+        q2 = VE("'id' is a required property", validator="required", validator_value=["id"], path=["c", 0], instance=whole["c"][0])
+        t5 = T([q1, q2])
+        try:
+            probes = (t5["b"], t5["c"][1], t5["a"])
+            if not all(isinstance(k, Obj) for k in probes) or g(probes[0], "total_errors") != 0 or g(probes[1], "total_errors") != 0 or dict(g(probes[2], "errors")) != {"required": q1}:
+                out["absent-index"] = out.get("absent-index") or "with `required` errors below the root only, error-free siblings are not empty trees / the filed error is not found"
+        except PyRaise as pr:
+            out["absent-index"] = ("with `required` errors below the root only (each error's instance is the object lacking the member), looking up an error-free sibling "
+                                   "of the root or of an array raises %s: a node consulted an instance that is not its own" % pr.name)
         # building a tree reads the errors; it does not change them (their paths are looked at again afterwards)
         out["errors-untouched"] = None
         for e, pth in ((e0, []), (e2, ["x", 0]), (e5, ["x"]), (e7, ["a", "b"]), (f4, ["a", "b", "c"]), (f6, [])):
